@@ -122,8 +122,18 @@ func RemoveTrailingSlashWithConfig(config TrailingSlashConfig) echo.MiddlewareFu
 func sanitizeURI(uri string) string {
 	// double slash `\\`, `//` or even `\/` is absolute uri for browsers and by redirecting request to that uri
 	// we are vulnerable to open redirect attack. so replace all slashes from the beginning with single slash
-	if len(uri) > 1 && (uri[0] == '\\' || uri[0] == '/') && (uri[1] == '\\' || uri[1] == '/') {
-		uri = "/" + strings.TrimLeft(uri, `/\`)
+	// browsers also ignore tabs and newlines inside URL, so these must not hide second slash
+	i := 0
+	slashes := 0
+	for ; i < len(uri); i++ {
+		if uri[i] == '\\' || uri[i] == '/' {
+			slashes++
+		} else if uri[i] != '\t' && uri[i] != '\n' && uri[i] != '\r' {
+			break
+		}
+	}
+	if slashes > 1 {
+		uri = "/" + uri[i:]
 	}
 	return uri
 }
